@@ -132,7 +132,25 @@ def case_numeric(case):
                          analytic_solver_dict=ana[0] if ana else None, parameters=indict.get("parameters"),
                          spike_times={k: list(v) for k, v in case["spike_times"].items()}, max_step_size=case["max_step"],
                          integration_accuracy_abs=case["acc"], integration_accuracy_rel=case["acc"], sim_time=case["sim_time"], alias_spikes=case["alias"])
+    reuse = None
+    if ana and case.get("reuse", True):
+        # a run with an overridden initial value of an analytically solved variable must not influence the next run on the
+        # same object: the second run is compared with the same run on a fresh object
+        av = ana[0]["state_variables"][0]
+        mi.integrate_ode(initial_values={sympy.Symbol(av): 3.0}, h_min_lower_bound=1e-14, raise_errors=False, debug=True)
     out = mi.integrate_ode(h_min_lower_bound=1e-14, raise_errors=False, debug=True)
+    if ana and case.get("reuse", True):
+        mi_f = MixedIntegrator(odeiv.step_rk4 if case["stepper"] == "rk4" else odeiv.step_bsimp, sub, shapes,
+                               analytic_solver_dict=[s_ for s_ in odetoolbox.analysis(json.loads(json.dumps(indict)), disable_stiffness_check=True) if s_["solver"] == "analytical"][0],
+                               parameters=indict.get("parameters"), spike_times={k: list(v) for k, v in case["spike_times"].items()},
+                               max_step_size=case["max_step"], integration_accuracy_abs=case["acc"], integration_accuracy_rel=case["acc"],
+                               sim_time=case["sim_time"], alias_spikes=case["alias"])
+        out_f = mi_f.integrate_ode(h_min_lower_bound=1e-14, raise_errors=False, debug=True)
+        same_t = len(out[4]) == len(out_f[4]) and bool(np.allclose(out[4], out_f[4], rtol=0, atol=1e-12))
+        same_y = same_t and bool(np.allclose(out[6], out_f[6], rtol=1e-9, atol=1e-12))
+        reuse = {"same_t_log": same_t, "same_y_log": same_y, "overridden": av,
+                 "analytic_start_reused": float(mi.analytic_integrator.get_value(0.)[av]), "analytic_start_fresh": float(mi_f.analytic_integrator.get_value(0.)[av]),
+                 "y_end_reused": [float(v) for v in out[6][-1]], "y_end_fresh": [float(v) for v in out_f[6][-1]]}
     h_min, h_avg, runtime, crossed, t_log, h_log, y_log, sym_list = out
     x = [str(s) for s in sym_list]
     # reference: full system from the input text, integrated piecewise between the times at which the code may apply events
@@ -154,7 +172,7 @@ def case_numeric(case):
             bounds[nm] = (float(d["upper_bound"]) if "upper_bound" in d else None, float(d["lower_bound"]) if "lower_bound" in d else None)
     y0 = [iv[v] for v in allv]
     return {"x": x, "allv": allv, "t_log": [float(t) for t in t_log], "y_log": [[float(v) for v in row] for row in y_log], "crossed": bool(crossed),
-            "y0": y0, "bounds": bounds, "ref": _reference(f, allv, y0, case, [float(t) for t in t_log], bounds, x)}
+            "y0": y0, "bounds": bounds, "reuse": reuse}
 
 
 def _reference(f, allv, y0, case, t_log, bounds, x):
@@ -294,6 +312,11 @@ def oracle_events(ctx, case, res):
 def oracle_numeric(ctx, case, res):
     t_log, y_log, x = res["t_log"], res["y_log"], res["x"]
     sig = {"alias": case["alias"], "stepper": case["stepper"]}
+    ru = res.get("reuse")
+    if ru is not None:
+        ctx.count("reuse_checked")
+        if not (ru["same_t_log"] and ru["same_y_log"]) or abs(ru["analytic_start_reused"] - ru["analytic_start_fresh"]) > 1e-12:
+            ctx.fail("run-depends-on-earlier-run-on-same-object", case, {"detail": ru, "signature": dict(sig, what="reuse")})
     if any(not (a < b) for a, b in zip(t_log, t_log[1:])):
         ctx.fail("time-not-strictly-increasing", case, {"signature": dict(sig, what="monotone")})
     if abs(t_log[-1] - case["sim_time"]) > 1e-12:
